@@ -245,6 +245,11 @@ def _checker_validation(prop):
                             '--json', j2], cwd=VERIF_DIR, env=env, capture_output=True, text=True, timeout=3000)
         try:
             out['automatic_mutation_sweep'] = json.load(open(j2)).get(prop, {})
+            out['automatic_mutation_sweep']['note'] = (
+                'per-property figure over the functions this property reads in full (thinned to 40 mutants per file); a mutant '
+                'silent here may be reported by another property that reads the same function - the cross-property figure '
+                '(selftest/automutate.py --union: 1995 mutants, 1908 reported, 14 analysis-error only, 73 survivors, all triaged in '
+                'selftest/automutate_triage.json) is in DESIGN.md, change log item 14')
         except (OSError, ValueError):
             out['automatic_mutation_sweep'] = {'error': (r.stdout + r.stderr)[-300:]}
         j3 = os.path.join(tmpd, 'refactor.json')
